@@ -162,6 +162,24 @@ pub fn produce(rt: &tokio::runtime::Runtime, case: &Value, src: &Source, path: &
 				reverse: bool_of(ch, "reverse"),
 				meta_name: "tiles.json",
 			};
+			// members interleaved by level: the tiles of the levels take turns (round robin), so every level comes in several runs
+			let raw = if bool_of(ch, "interleave") {
+				let mut by_level: std::collections::BTreeMap<u8, std::collections::VecDeque<indep::Tile>> = Default::default();
+				for t in raw.iter().cloned() {
+					by_level.entry(t.0).or_default().push_back(t);
+				}
+				let mut out = vec![];
+				while by_level.values().any(|q| !q.is_empty()) {
+					for q in by_level.values_mut() {
+						if let Some(t) = q.pop_front() {
+							out.push(t);
+						}
+					}
+				}
+				out
+			} else {
+				raw
+			};
 			std::fs::write(path, indep::encode_tar(&src.tf, &src.tc, &raw, meta, &c)).unwrap();
 		}
 		"directory" => indep::encode_dir(path, &src.tf, &src.tc, &raw, meta, bool_of(ch, "extra_files")),
